@@ -52,6 +52,7 @@ type OblResult struct {
 }
 
 func (x *Exec) verifyFunc(fn *ssa.Function, c *FuncContract) (err error) {
+	x.unitC = c
 	defer func() {
 		if r := recover(); r != nil {
 			switch e := r.(type) {
@@ -120,6 +121,7 @@ func (x *Exec) verifyFunc(fn *ssa.Function, c *FuncContract) (err error) {
 		st.ghost[l.Name] = env.eval(l.E)
 	}
 	for _, r := range c.Requires {
+		x.assumeLocked(st, env, r.E)
 		st.assume(env.evalBool(r.E))
 	}
 	if x.boundedRun {
